@@ -82,6 +82,17 @@ class MetaRefs(Monitor):
             r, t['tableId'], t['recordCardViewSectionRef'])))
       if t['primaryViewId'] and t['primaryViewId'] not in views:
         bad.append(('table-primary-view', "table #%s primaryViewId %s" % (r, t['primaryViewId'])))
+    # a display helper belongs to the table of the column (or of the field's column) it serves
+    for kind, coll in (('column', cols), ('field', fields)):
+      for r, x in coll.items():
+        dc = x.get('displayCol') or 0
+        if not dc or dc not in cols:
+          continue
+        own = x['parentId'] if kind == 'column' else cols.get(x.get('colRef'), {}).get('parentId')
+        if cols[dc]['parentId'] != own or not str(cols[dc]['colId']).startswith('gristHelper_Display'):
+          bad.append(('display-col-not-a-helper-of-its-table',
+                      "%s #%s has displayCol #%s = %s of table %s" % (
+                          kind, r, dc, cols[dc]['colId'], cols[dc]['parentId'])))
     # helper columns must be used
     used_display = set(c['displayCol'] for c in cols.values()) | set(f['displayCol'] for f in fields.values())
     used_rules = set()
